@@ -27,15 +27,15 @@ SCRIPTS = [
 
 
 def one(job):
-    idx, script, maxed = job
+    idx, script, maxed = job[:3]
     try:
-        return _one(idx, script, maxed)
+        return _one(idx, script, maxed, job[3] if len(job) > 3 else True)
     except BaseException:
         import traceback
         return {"crash": traceback.format_exc(), "script": script}
 
 
-def _one(idx, script, maxed):
+def _one(idx, script, maxed, offered=True):
     from ..endpoints import Pair, cred, settings, Task, run_tasks, _read_gen
     from tlslite.constants import ContentType, HandshakeType, ExtensionType
     from tlslite.extensions import TLSExtension
@@ -47,7 +47,7 @@ def _one(idx, script, maxed):
     orig_send = p.c._sendMsg
 
     def _sendMsg(msg, *a, **kw):
-        if msg.contentType == ContentType.handshake and getattr(msg, "handshakeType", None) == HandshakeType.client_hello \
+        if offered and msg.contentType == ContentType.handshake and getattr(msg, "handshakeType", None) == HandshakeType.client_hello \
                 and not msg.getExtension(ExtensionType.early_data):
             exts = list(msg.extensions)
             pos = len(exts) - 1 if exts and exts[-1].extType == ExtensionType.pre_shared_key else len(exts)
@@ -59,12 +59,12 @@ def _one(idx, script, maxed):
     ts = Task("s", p.s.handshakeServerAsync(certChain=ch, privateKey=k, settings=ss), p.ssock)
     run_tasks([tc], p.pipes, max_steps=20000)
     run_tasks([ts], p.pipes, max_steps=20000)
-    ev = [{"ev": "CFG", "max": maxed}]
+    ev = [{"ev": "CFG", "max": maxed, "offered": bool(offered)}]
     info = {"script": script, "max": maxed, "problems": []}
     if ts.out.done:
         info["problems"].append("server ended before any item: %s" % ts.out.describe())
         return {"trace": ev, "info": info}
-    if not p.s._recordLayer.early_data_ok:
+    if offered and not p.s._recordLayer.early_data_ok:
         info["problems"].append("server did not switch the tolerance on")
         return {"trace": ev, "info": info}
     hs_done = False
@@ -111,6 +111,9 @@ def part(rep, tier):
     for script in (["g300", "g300", "g300", "gen"], ["g300", "ccs", "g300", "ccs", "g300", "ccs", "g300", "gen"], ["g999", "gen"],
                    ["g1000", "gen"], ["g64"] * 20 + ["gen"]):
         jobs.append((len(jobs), script, 1000))
+    # a PSK in the ClientHello but no early_data extension: nothing may be skipped
+    for script in (["g100", "gen"], ["g17", "g17", "gen"], ["g16000", "gen"]):
+        jobs.append((len(jobs), script, 2 ** 14 + 16, False))
     if tier == "thorough":
         rnd = random.Random(repr((env.SEED, "c02early-rand")))
         for _ in range(120):
